@@ -74,42 +74,22 @@ func init() {
 			problem("backend.QueryMaxLimit not found")
 			maxLimit = 0
 		}
-		cacheCond := func(rel, recv, name string) (string, bool, bool) {
+		shape := func(rel, recv, name string) (bool, bool, bool) {
 			fd := funcDecl(parseFile(rel), recv, name)
 			if fd == nil {
 				problem("%s: %s.%s not found", rel, recv, name)
-				return "", false, false
+				return false, false, false
 			}
-			cond, clamp, loop := "", false, false
-			ast.Inspect(fd.Body, func(n ast.Node) bool {
-				switch s := n.(type) {
-				case *ast.AssignStmt:
-					if len(s.Lhs) == 1 && c03Str(s.Lhs[0]) == "cache" {
-						cond = c03Str(s.Rhs[0])
-					}
-				case *ast.IfStmt:
-					c := c03Str(s.Cond)
-					if c == "limit > QueryMaxLimit" || c == "limit > backend.QueryMaxLimit" {
-						clamp = true
-					}
-				case *ast.ForStmt:
-					if s.Cond != nil && c03Str(s.Cond) == "limit > 0 && err == nil" {
-						loop = true
-					}
-				}
-				return true
-			})
-			return cond, clamp, loop
+			return c03QueryLoopShape(fd)
 		}
-		c1, clamp1, loop1 := cacheCond("pkg/backend/querier.go", "Querier", "Query")
-		c2, clamp2, loop2 := cacheCond("api/rpc/querier.go", "ServerQuerier", "query")
-		norm := func(s string) string { return strings.NewReplacer("req.", "", "rq.", "").Replace(s) }
+		clamp1, loop1, cache1 := shape("pkg/backend/querier.go", "Querier", "Query")
+		clamp2, loop2, cache2 := shape("api/rpc/querier.go", "ServerQuerier", "query")
 		l.p("/-- `backend.QueryMaxLimit` -/")
 		l.p("def queryMaxLimit : Nat := %d", maxLimit)
 		l.p("/-- both query loops clamp with `limit > QueryMaxLimit` and run `for limit > 0 && err == nil` -/")
 		l.p("def bothLoopsClampAndCount : Bool := %s", leanBool(clamp1 && clamp2 && loop1 && loop2))
 		l.p("/-- both decide `cache := WaitTimeout > 0 || limit != Limit` -/")
-		l.p("def cacheIsWaitOrClamped : Bool := %s", leanBool(norm(c1) == "WaitTimeout > 0 || limit != Limit" && norm(c2) == norm(c1)))
+		l.p("def cacheIsWaitOrClamped : Bool := %s", leanBool(cache1 && cache2))
 
 		// --- position text ---------------------------------------------------------------------------
 		wc, wi, plen, pcut := 0, 0, 0, 0
@@ -168,60 +148,34 @@ func init() {
 		l.p("def posJrnlVal : String := %s", leanStr(val))
 
 		// --- code shape the models are written for (each is one of the repaired defects) ---------------
-		cf := parseFile("pkg/cursor/cursor.go")
+		cp := c03LoadPkg("pkg/cursor")
+		pp := c03LoadPkg("pkg/partition")
 		settles := false
-		if fd := funcDecl(cf, "crsr", "Offset"); fd == nil {
+		if fd := cp.method("crsr", "Offset"); fd == nil {
 			problem("crsr.Offset not found")
 		} else {
-			ast.Inspect(fd.Body, func(n ast.Node) bool {
-				is, ok := n.(*ast.IfStmt)
-				if !ok || c03Str(is.Cond) != "offs < 0" || is.Else == nil {
-					return true
-				}
-				ast.Inspect(is.Else, func(m ast.Node) bool {
-					if ce, ok := m.(*ast.CallExpr); ok && c03Str(ce.Fun) == "cur.Get" {
-						settles = true
-					}
-					return true
-				})
-				return false
-			})
+			settles = c03OffsetSettles(cp, fd)
 		}
-		l.p("/-- `crsr.Offset`: the positive branch starts with `cur.Get` (f673a84) -/")
+		l.p("/-- `crsr.Offset`: the branch of the positive offsets settles with a `Get` before it steps (f673a84) -/")
 		l.p("def offsetPositiveBranchSettles : Bool := %s", leanBool(settles))
 		drops := false
-		if fd := funcDecl(parseFile("pkg/cursor/fiterator.go"), "fiterator", "SetBackward"); fd == nil {
+		if fd := cp.method("fiterator", "SetBackward"); fd == nil {
 			problem("fiterator.SetBackward not found")
 		} else {
-			for _, st := range fd.Body.List {
-				if as, ok := st.(*ast.AssignStmt); ok && c03Str(as.Lhs[0]) == "fit.valid" && c03Str(as.Rhs[0]) == "false" {
-					drops = true
-				}
-			}
+			drops = c03UnconditionalAssign(cp, fd, "valid", "false")
 		}
-		l.p("/-- `fiterator.SetBackward` ends with `fit.valid = false` (1a882be) -/")
+		l.p("/-- `fiterator.SetBackward` unconditionally sets `valid = false` (1a882be) -/")
 		l.p("def fiteratorSetBackwardDropsCache : Bool := %s", leanBool(drops))
 		keeps := false
-		if fd := funcDecl(parseFile("pkg/partition/jiterator.go"), "JIterator", "ensureChkIt"); fd == nil {
+		if fd := pp.method("JIterator", "ensureChkIt"); fd == nil {
 			problem("partition.JIterator.ensureChkIt not found")
 		} else {
-			ast.Inspect(fd.Body, func(n ast.Node) bool {
-				is, ok := n.(*ast.IfStmt)
-				if !ok || c03Str(is.Cond) != "chk == nil" {
-					return true
-				}
-				for _, st := range is.Body.List {
-					if in, ok := st.(*ast.IfStmt); ok && c03Str(in.Cond) == "!jit.bkwrd" && len(in.Body.List) == 1 && c03Str(in.Body.List[0]) == "jit.pos = pos" {
-						keeps = true
-					}
-				}
-				return false
-			})
+			keeps = c03BackwardEofKeepsPos(fd)
 		}
 		l.p("/-- `partition.JIterator.ensureChkIt`: on EOF the position is taken over only when reading forward (b7773f9) -/")
 		l.p("def backwardEofKeepsPos : Bool := %s", leanBool(keeps))
 		fromDecision := false
-		if fd := funcDecl(parseFile("pkg/partition/cselector.go"), "chkSelector", "getPosForward"); fd == nil {
+		if fd := pp.method("chkSelector", "getPosForward"); fd == nil {
 			problem("chkSelector.getPosForward not found")
 		} else if n := len(fd.Body.List); n > 0 {
 			if rs, ok := fd.Body.List[n-1].(*ast.ReturnStmt); ok && len(rs.Results) == 4 {
@@ -230,81 +184,29 @@ func init() {
 		}
 		l.p("/-- `chkSelector.getPosForward`: the end-of-data position does not read `Count()` again (53beb1f) -/")
 		l.p("def fwdEndPosFromDecisionCount : Bool := %s", leanBool(fromDecision))
-		// --- newCursor sorts its sources; the empty cursor keeps the request's state -------------------------
 		sorts := false
-		if fd := funcDecl(cf, "", "newCursor"); fd == nil {
+		if fds := cp.funcs["newCursor"]; len(fds) != 1 {
 			problem("cursor.newCursor not found")
 		} else {
-			sawSort := false
-			ast.Inspect(fd.Body, func(n ast.Node) bool {
-				switch x := n.(type) {
-				case *ast.CallExpr:
-					if c03Str(x.Fun) == "sort.Slice" && len(x.Args) == 2 && c03Str(x.Args[0]) == "lines" {
-						sawSort = true
-					}
-				case *ast.RangeStmt:
-					// the loop that wraps the iterators must range over the sorted slice, not over the map
-					if sawSort && c03Str(x.X) == "lines" {
-						ast.Inspect(x.Body, func(m ast.Node) bool {
-							if ce, ok := m.(*ast.CallExpr); ok && strings.HasSuffix(c03Str(ce.Fun), ".Wrap") {
-								sorts = true
-							}
-							return true
-						})
-					}
-				}
-				return true
-			})
+			sorts = c03SortsSources(cp, fds[0])
 		}
 		l.p("/-- `newCursor` builds the mixer tree over the sources sorted by tag line (f086c95) -/")
 		l.p("def newCursorSortsSources : Bool := %s", leanBool(sorts))
 		keepsState := false
-		pf := parseFile("pkg/cursor/provider.go")
-		if g, r := funcDecl(pf, "provider", "GetOrCreate"), funcDecl(pf, "provider", "Release"); g == nil || r == nil {
+		if g, r := cp.method("provider", "GetOrCreate"), cp.method("provider", "Release"); g == nil || r == nil {
 			problem("provider.GetOrCreate / Release not found")
 		} else {
-			makes := strings.Contains(c03Str(g.Body), "emptyCursor{st: State{Query: state.Query, Pos: state.Pos}}")
-			gives := false
-			ast.Inspect(r.Body, func(n ast.Node) bool {
-				if is, ok := n.(*ast.IfStmt); ok && is.Init != nil && strings.Contains(c03Str(is.Init), "curs.(emptyCursor)") {
-					for _, st := range is.Body.List {
-						if rs, ok := st.(*ast.ReturnStmt); ok && len(rs.Results) == 1 && c03Str(rs.Results[0]) == "ec.st" {
-							gives = true
-						}
-					}
-				}
-				return true
-			})
-			keepsState = makes && gives
+			keepsState = c03EmptyCursorKeepsState(cp, g, r)
 		}
 		l.p("/-- the empty cursor (no partition matches) is built with the request's Query and Pos and `Release` returns them (a8a4a54) -/")
 		l.p("def emptyCursorKeepsState : Bool := %s", leanBool(keepsState))
-		// --- ApplyState drops what the wrapping iterators buffered (proposed repair of F22) ------------------
 		drops22 := false
-		if fd := funcDecl(cf, "crsr", "ApplyState"); fd == nil {
+		if fd := cp.method("crsr", "ApplyState"); fd == nil {
 			problem("crsr.ApplyState not found")
 		} else {
-			ast.Inspect(fd.Body, func(n ast.Node) bool {
-				is, ok := n.(*ast.IfStmt)
-				if !ok || c03Str(is.Cond) != "cur.state.Pos != state.Pos" {
-					return true
-				}
-				var calls []string
-				for _, st := range is.Body.List {
-					if es, ok := st.(*ast.ExprStmt); ok {
-						calls = append(calls, c03Str(es.X))
-					}
-				}
-				for i := 0; i+1 < len(calls); i++ {
-					a, b := strings.Replace(calls[i], "cur.it.", "cur.", 1), strings.Replace(calls[i+1], "cur.it.", "cur.", 1)
-					if a == "cur.SetBackward(true)" && b == "cur.SetBackward(false)" {
-						drops22 = true
-					}
-				}
-				return false
-			})
+			drops22 = c03DropsBuffers(cp, fd)
 		}
-		l.p("/-- `crsr.ApplyState`: after a position that differs from the cursor's own was applied, the wrapping iterators are made to forget their buffered event / selection (direction switch there and back) -/")
+		l.p("/-- `crsr.ApplyState`: after a position that differs from the cursor's own was applied, the wrapping iterators are made to forget their buffered event / selection (direction switch there and back; 0706090) -/")
 		l.p("def applyStateDropsBuffers : Bool := %s", leanBool(drops22))
 		l.write()
 	}
